@@ -18,6 +18,9 @@ pub struct GenCtx {
     /// numbers outside the value domain of the time types (month 13, year beyond chrono's range, offsets beyond a day,
     /// nanoseconds beyond a second …): well-framed but meaningless wire data for the hostile decode workloads
     pub out_of_domain: bool,
+    /// DateTime<Local>: also draw wall-clock times next to typical daylight-saving transitions (some of them do not exist
+    /// in a given zone — callers that need constructible values everywhere leave this off)
+    pub dst_edges: bool,
 }
 
 impl Default for GenCtx {
@@ -38,6 +41,7 @@ impl Default for GenCtx {
             allow_large: true,
             transient_ctors: false,
             out_of_domain: false,
+            dst_edges: false,
         }
     }
 }
@@ -208,6 +212,33 @@ fn gen_date(rng: &mut Rng) -> Val {
         _ => rng.range(1, dim as i64) as u32,
     };
     Val::Tuple(vec![Val::I(y as i128), Val::U(m as u128), Val::U(d as u128)])
+}
+
+/// day of month of the last Sunday of (year, month) — proleptic Gregorian, Sakamoto's method
+fn last_sunday(y: i64, m: u32) -> u32 {
+    let dim = days_in_month(y, m);
+    let t = [0, 3, 2, 5, 0, 3, 5, 1, 4, 6, 2, 4];
+    let yy = if m < 3 { y - 1 } else { y };
+    let dow = (yy + yy / 4 - yy / 100 + yy / 400 + t[(m - 1) as usize] + dim as i64).rem_euclid(7); // 0 = Sunday
+    dim - dow as u32
+}
+
+/// a wall-clock time within a few hours of a typical daylight-saving transition (last Sunday of March / October, first
+/// Sunday of November, second Sunday of March): where local-time arithmetic goes wrong if it goes wrong
+fn near_dst_transition(rng: &mut Rng) -> Val {
+    let y = rng.range(1985, 2035);
+    let (m, d) = match rng.below(4) {
+        0 => (3, last_sunday(y, 3)),
+        1 => (10, last_sunday(y, 10)),
+        2 => (11, last_sunday(y, 10) % 7 + 1), // first Sunday of November
+        _ => (3, last_sunday(y, 3) % 7 + 8),   // second Sunday of March
+    };
+    let d = d.clamp(1, days_in_month(y, m));
+    let h = rng.below(5);
+    Val::Tuple(vec![
+        Val::Tuple(vec![Val::I(y as i128), Val::U(m as u128), Val::U(d as u128)]),
+        Val::Tuple(vec![Val::U(h as u128), Val::U(rng.below(60) as u128), Val::U(rng.below(60) as u128), Val::U(rng.below(1_000_000_000) as u128)]),
+    ])
 }
 
 fn gen_time(rng: &mut Rng) -> Val {
@@ -499,6 +530,7 @@ fn gen(ty: &Ty, rng: &mut Rng, ctx: &GenCtx, depth: usize) -> Val {
         }
         Ty::NaiveDate => gen_date(rng),
         Ty::NaiveTime => gen_time(rng),
+        Ty::DateTimeLocal if ctx.dst_edges && rng.chance(1, 3) => near_dst_transition(rng),
         Ty::NaiveDateTime | Ty::DateTimeLocal => Val::Tuple(vec![gen_date(rng), gen_time(rng)]),
         Ty::DateTimeFixed => {
             let dt = Val::Tuple(vec![gen_date_inner(rng), gen_time(rng)]);
